@@ -6,11 +6,11 @@ V = os.path.dirname(os.path.dirname(os.path.abspath(__file__)))
 CHECKS = {
  "C20": dict(engine="writer20", cat="fault_enumeration", design="DESIGN.md §4 C20",
    technique="deterministic simulation of the io.Writer with fault injection: every Write position x every failure kind enumerated, plus seeded multi-failure schedules",
-   text="tsp.LIB runs against a simulated writer. For each n in the tier's range and each weight family the fault-free output is parsed by an independent TSPLIB parser, and then LIB is re-executed once for every Write call position and every failure kind (transient/permanent x zero/short/full-count-with-error); the oracle is 'a Write failed => non-nil error; none failed => nil error and the bytes parse'. Exhaustive in the fault dimension for the listed configurations, sampled in (n, weights).",
+   text="tsp.LIB runs against a simulated writer. For each n in the tier's range and each weight family the fault-free output is parsed by an independent TSPLIB parser, and then LIB is re-executed once for every Write call position and every failure kind (transient/permanent x zero/short/full-count-with-error, errors with Temporary()==true, sentinel errors io.EOF / ErrShortWrite / ErrClosedPipe); the oracle is 'a Write failed => non-nil error; none failed => nil error and the bytes parse'. Exhaustive in the fault dimension for the listed configurations up to n = 130 (positions sampled for n >= 255), sampled in (n, weights).",
    note="Trusts: Go's text/tabwriter and fmt (real code, not stubbed); the harness's TSPLIB parser; faults outside the io.Writer contract (short count with nil error) are not injected."),
  "C18": dict(engine="dsu18", cat="exploration", design="DESIGN.md §4 C18",
    technique="seeded operation histories on one long-lived value checked in lock step against a reference partition model, with logical step budgets, tape minimisation and exact replay",
-   text="Seeded histories of Union/UnionBuffered/Find/FindBuffered/Sets/SmallestRep/Roots on disjoint.Set (n <= 64) are executed against a naive label-array model; after every operation representatives must induce exactly the model's partition, lookups must not change it, and derived views must describe it. Every call runs under a logical step budget so a parent cycle is a violation, not a hang. Sampling, not proof.",
+   text="Seeded histories of Union/UnionBuffered/Find/FindBuffered/Sets/SmallestRep/Roots on disjoint.Set (n <= 64, plus enumerated perfectly balanced trees on up to 2^17 elements, buffers of any capacity >= 1, the empty structure) are executed against a naive label-array model; after every operation representatives must induce exactly the model's partition, lookups must not change it, and derived views must describe it. Every call runs under a logical step budget so a parent cycle is a violation, not a hang. Sampling, not proof.",
    note="Tier B (history refinement): no fault or schedule exists in this code; the simulator contributes the seeded history, model, budgets, shrinking and replay. Trusts the label-array model."),
  "C17": dict(engine="sets17", cat="exploration", design="DESIGN.md §4 C17",
    technique="seeded operation histories over a pool of long-lived SortedInts values against a map-based set model (aliasing and spare capacity included), tape minimisation and exact replay",
@@ -19,11 +19,11 @@ CHECKS = {
  "C05": dict(engine="edit05", cat="exploration", design="DESIGN.md §4 C05",
    technique="seeded edit histories on a pool of dense/sparse twin graphs checked in lock step against an adjacency-set model after every operation (sharing between copies shows as drift), tape minimisation and exact replay",
    text="Each logical graph is held as a *DenseGraph, a *SparseGraph and a model; tape-chosen AddVertex/RemoveVertex/AddEdge/RemoveEdge/Copy/InducedSubgraph histories (valid arguments only) are applied to all three and after every operation every live object in the pool is compared with its model on N, M, IsEdge (all pairs), Neighbours, Degrees. Sampling, not proof.",
-   note="Tier B (history refinement). n <= 12, histories <= 60 operations. Trusts the adjacency-set model."),
+   note="Tier B (history refinement). n <= 12 (one run in 40: 60-90 vertices), histories <= 60 operations. Trusts the adjacency-set model."),
  "C08": dict(engine="store08", cat="fault_enumeration", design="DESIGN.md §4 C08",
    technique="simulated record store with storage-fault injection (torn writes at every offset, every byte substitution/bit flip on short records, splices, duplication) feeding the decoders under recover and a logical step budget",
    text="Valid graph6/sparse6 records produced by the encoders are damaged the way storage damages them and decoded under recover and a deterministic step budget; each call must end in an error or a well-formed graph on the declared n whose re-encoding decodes to the same graph. Truncations, single-byte substitutions and bit flips are enumerated completely for the corpus records; multi-fault combinations are seeded.",
-   note="The declared n is computed by the harness's own header parser; records declaring n > 4096 are skipped (the property's resource bound). Corpus bounded (all classes n <= 5, random graphs to n ~ 70, long-header records)."),
+   note="The declared n is computed by the harness's own header parser; records declaring n > 4096 are skipped (the property's resource bound). Corpus bounded (every labelled graph n <= 4, random graphs to n = 128, long-header records up to declared n = 4096). After every decode the previously returned graph must be unchanged."),
  "C12": dict(engine="dawg12", cat="exploration", design="DESIGN.md §4 C12",
    technique="seeded Add histories with rejected operations (out-of-order / duplicate) against a sorted-set model and an independent minimal-DFA state count, tape minimisation and exact replay",
    text="Word sets shaped to share prefixes and suffixes are added through New, a zero Builder or Initialise, with rejected additions interleaved; every Add's error must match the model, and after Finish NumberOfWords, Lookup of all members and of near-miss probes, and the node count (via the verif-tagged accessor) must match the sorted-set model and the independently computed minimal automaton. Sampling, not proof.",
@@ -35,11 +35,11 @@ CHECKS = {
  "C03": dict(engine="shard03", cat="exploration", design="DESIGN.md §4 C03",
    technique="multi-party simulation of the m search shards advanced in seeded interleavings; exactly-once/conservation over the joint history against an independent isomorphism-class enumeration",
    text="All configurations (n, m, predicate placement) in the tier's range are run with the m shard iterators advanced in a tape-chosen interleaving; every yielded value must be well formed and the multiset of independent canonical codes must equal the independently generated class set satisfying the predicate. Exhaustive over configurations at small n, sampled beyond.",
-   note="Independent IsoOracle (brute-force canonical code) shares no code with mamba; n <= 8 (9 for pruned families in thorough)."),
+   note="Independent IsoOracle (brute-force canonical code) shares no code with mamba; n <= 8 unpruned (9 in thorough), n <= 10 (11 in thorough) for strongly pruned families; split moduli up to 257."),
  "C04": dict(engine="ckpt04", cat="fault_enumeration", design="DESIGN.md §4 C04",
    technique="crash/restart simulation: the iterator is abandoned and restored from its checkpoint at every position (enumerated for small n), with chains, forks and legal-but-unusual reader behaviour, compared with the uninterrupted run",
    text="A worker owns a search iterator; crash+restore from the newest checkpoint is injected after every k-th Next (all k for small configurations), plus seeded chains of save/load/advance and forks advanced alternately; the restored iterator must emit exactly the uninterrupted suffix, the original must be undisturbed and the two independent. Readers deliver one byte at a time / short reads / data with EOF.",
-   note="Only completed Saves are restored (the property is silent about torn checkpoints). Configurations bounded (n <= 7 enumerated, 8 sampled)."),
+   note="Only completed Saves are restored (the property is silent about torn checkpoints). Configurations bounded (n <= 7 enumerated in quick for pruned families, n <= 8 in thorough). Value() right after Save must still be the graph yielded last."),
  "C19": dict(engine="sched19", cat="exploration", design="DESIGN.md §3.2, §4 C19",
    technique="deterministic goroutine scheduler over generated yield points (seeded preemption), Go race detector as happens-before monitor made blind to the scheduler's own synchronisation, solo-result oracle",
    text="The library is rebuilt with a yield at every function entry and loop head; 2-6 tasks (shards, labellers, iterators, Dawg queries, observers, clique producer/consumer...) run as goroutines of which exactly one holds the baton, and a seeded tape decides every preemption. Oracles: each task's result equals its solo result on fresh values, the race detector (which sees no happens-before between tasks) reports nothing, shared values are unchanged. Sampling over schedules, not proof.",
